@@ -178,3 +178,49 @@ func VP_C07_InStep() {
 	vp.Assert(q.queueHasData == (len(q.in) > 0), "has-data-flag")
 	vp.Reach("done")
 }
+
+// VP_C07_WriteCount: OutQueue.Write cuts b into fragments of mtu bytes; the transport callback fails at a symbolic
+// fragment (five lost exchanges in a row, SendAndReceive giving up). Whatever Write then reports as accepted must be
+// exactly what entered the queue - queued fragments are still transmitted by the poll loop, so a caller that resubmits
+// b[n:] would otherwise deliver bytes twice, or lose some.
+func VP_C07_WriteCount() {
+	q := &OutQueue{NextSeqNo: vp.U16("s")}
+	mtu := vp.Param("mtu")
+	total := vp.Range("len", 1, 3*mtu)
+	b := vp.Bytes("b", total)
+	failAt := vp.Choice("fail-at", 4) // the callback fails when this many chunks are queued (0 = never)
+	calls := 0
+	q.OnChunkAdded = func() error {
+		calls++
+		if calls == failAt {
+			return ErrDeadlineExceeded
+		}
+		// the transport delivered the chunk and it was acknowledged
+		q.UpdateAcked(q.out[0].SeqNo)
+		return nil
+	}
+	n, err := q.Write(append([]byte(nil), b...), uint32(mtu))
+	queued := 0
+	for _, p := range q.out {
+		queued += len(p.Data)
+	}
+	entered := 0 // bytes that were handed to the queue during this Write: acknowledged ones plus those still queued
+	full := calls
+	if failAt != 0 && calls >= failAt {
+		full = failAt
+	}
+	for i := 0; i < full; i++ {
+		l := mtu
+		if (i+1)*mtu > total {
+			l = total - i*mtu
+		}
+		entered += l
+	}
+	vp.Assert(n == entered, "write-count-equals-bytes-that-entered-the-queue")
+	if err == nil {
+		vp.Assert(n == total && queued == 0, "successful-write-accepts-everything")
+	} else {
+		vp.Assert(queued > 0, "failed-fragment-stays-queued-for-the-poll-loop")
+	}
+	vp.Reach("write-counted")
+}
